@@ -454,3 +454,37 @@ def field_discr_edges(fn, adt, field, variant, nvariants=2):
                     if e:
                         out.append(e)
     return out
+
+
+def switches_on_call(fn, call_bi):
+    """all switch edges whose scrutinee derives (by copies) from the bool result of the call in block call_bi:
+    list of {True: (sw, tgt), False: (sw, tgt)}"""
+    out = []
+    for sb, bb in enumerate(fn["bbs"]):
+        tt = bb["t"]
+        if tt["k"] != "switch" or not is_place(tt["o"]):
+            continue
+        roots = trace(fn, tt["o"], through_calls=())
+        if any(k == "call" and v == call_bi for k, v, p in roots) and len(roots) == 1:
+            f = [tb for v, tb in tt["tg"] if v == 0]
+            if f:
+                out.append({False: (sb, f[0]), True: (sb, tt["else"])})
+    return out
+
+
+def closure_arg_calls(F, fn, term, target_pred, depth=3):
+    """does any closure passed (directly) as an argument of call `term` (transitively, nocha) call a fn satisfying target_pred"""
+    from . import cg
+    for a in term["args"]:
+        if not is_place(a):
+            continue
+        for k, v, p in trace(fn, a):
+            if k == "agg":
+                rv = fn["bbs"][v[0]]["s"][v[1]]["r"]
+                if rv.get("ak") == "closure":
+                    par = cg.reach(F, [rv["n"]], cha=False)
+                    for g in par:
+                        gf = F.fns.get(g)
+                        if gf and any(target_pred(t["callee"]) for _, t in calls(gf)):
+                            return True
+    return False
